@@ -803,7 +803,7 @@ def split(xs, n):
     return [xs[i::n] for i in range(n)]
 
 
-def validate_frames(ctx, recs, label, nproc=8):
+def validate_frames(ctx, recs, label, nproc=8, defer=None):
     """recs: outputs of frames_job.  Returns the TLC rejects (dicts with id)."""
     cases = [{k: c[k] for k in ("id", "items", "wire", "got", "left")} for c in recs]
     rejects = []
@@ -818,13 +818,18 @@ def validate_frames(ctx, recs, label, nproc=8):
             raise MachineryFailure("ZmtpTrace visited %d states for %d cases" % (res.distinct, len(chunk)))
         return res
 
-    for res in tlc_parallel(run, split(cases, nproc)):
-        ctx.add_tlc(res, None)
+    results = tlc_parallel(run, split(cases, nproc))
+    for res in results:
         rejects += res.rejects
+    if defer is None:
+        for res in results:
+            ctx.add_tlc(res, None)
+    else:
+        defer.extend(results)
     return rejects
 
 
-def validate_sessions(ctx, cases, label, nproc=8):
+def validate_sessions(ctx, cases, label, nproc=8, defer=None):
     rejects = []
 
     def run(i, chunk):
@@ -838,9 +843,14 @@ def validate_sessions(ctx, cases, label, nproc=8):
             raise MachineryFailure("KernelTrace verdicts incomplete: %s for %d cases, %d rejects" % (info, len(chunk), len(res.rejects)))
         return res
 
-    for res in tlc_parallel(run, split(cases, nproc)):
-        ctx.add_tlc(res, None)
+    results = tlc_parallel(run, split(cases, nproc))
+    for res in results:
         rejects += res.rejects
+    if defer is None:
+        for res in results:
+            ctx.add_tlc(res, None)
+    else:
+        defer.extend(results)
     return rejects
 
 
@@ -870,11 +880,13 @@ def mc_tasks(ctx):
     q = ctx.quick
     T = []
     # framing
-    T.append(("Zmtp byte-fed, <=3 frames, len<=4", "Zmtp", zmtp_cfg(4, 3, "byte", False, ZMTP_INV), "holds", 6))
     if q:
+        T.append(("Zmtp byte-fed, <=3 frames, len<=3", "Zmtp", zmtp_cfg(3, 3, "byte", False, ZMTP_INV), "holds", 6))
+        T.append(("Zmtp byte-fed, <=2 frames, len<=4", "Zmtp", zmtp_cfg(4, 2, "byte", False, ZMTP_INV), "holds", 4))
         T.append(("Zmtp all chunkings, <=2 frames, len<=3", "Zmtp", zmtp_cfg(3, 2, "all", False, ZMTP_INV), "holds", 3))
         T.append(("Zmtp all chunkings + command frame, <=2 frames, len<=2", "Zmtp", zmtp_cfg(2, 2, "all", True, ZMTP_INV), "holds", 3))
     else:
+        T.append(("Zmtp byte-fed, <=3 frames, len<=4", "Zmtp", zmtp_cfg(4, 3, "byte", False, ZMTP_INV), "holds", 8))
         T.append(("Zmtp all chunkings, <=3 frames, len<=4", "Zmtp", zmtp_cfg(4, 3, "all", False, ZMTP_INV), "holds", 12))
         T.append(("Zmtp all chunkings + command frame, <=2 frames, len<=3", "Zmtp", zmtp_cfg(3, 2, "all", True, ZMTP_INV), "holds", 6))
     T.append(("Zmtp witnesses", "Zmtp", zmtp_cfg(3, 1, "all", True, []).replace("CHECK_DEADLOCK", "CONSTRAINT TrackW\nPOSTCONDITION WitnessesSeen\nCHECK_DEADLOCK"),
@@ -882,8 +894,10 @@ def mc_tasks(ctx):
     # session
     both = ["TRUE", "FALSE"]
     if q:
-        T.append(("Kernel spec, <=2 requests, full universe", "Kernel", kernel_cfg("spec", 2, TAGS_ALL, True, both, KERNEL_INV), "holds", 6))
-        T.append(("Kernel spec, <=3 requests, core universe", "Kernel", kernel_cfg("spec", 3, ["perr", "kernel_info_request", "forged-sig"], False, ["TRUE"], KERNEL_INV), "holds", 4))
+        T.append(("Kernel spec, <=2 requests, full universe, one client", "Kernel", kernel_cfg("spec", 2, TAGS_ALL, False, both, KERNEL_INV), "holds", 6))
+        T.append(("Kernel spec, <=2 requests, core universe, two clients", "Kernel", kernel_cfg("spec", 2, TAGS_CORE, True, ["TRUE"], KERNEL_INV), "holds", 3))
+        T.append(("Kernel spec, <=3 requests, error+print / kernel_info / forged", "Kernel",
+                  kernel_cfg("spec", 3, ["perr", "kernel_info_request", "forged-sig"], False, ["TRUE"], KERNEL_INV), "holds", 6))
         n = 2
     else:
         T.append(("Kernel spec, <=3 requests, full universe", "Kernel", kernel_cfg("spec", 3, TAGS_ALL, True, both, KERNEL_INV), "holds", 12))
@@ -891,12 +905,12 @@ def mc_tasks(ctx):
         n = 3
     tags_n = TAGS_ALL if q else [t for t in TAGS_ALL if t not in ("stmt", "complete_request", "is_complete_request", "forged-key")]
     rest = [i for i in KERNEL_INV if i != "StdoutAttributed"]
-    T.append(("Kernel code mechanism, everything but stdout attribution", "Kernel", kernel_cfg("code", n, tags_n, q, both, rest), "holds", 4))
+    T.append(("Kernel code mechanism, everything but stdout attribution", "Kernel", kernel_cfg("code", n, tags_n, False, both, rest), "holds", 4))
     T.append(("Kernel code mechanism, stdout attribution (known finding)", "Kernel", kernel_cfg("code", 2, TAGS_ALL, False, ["TRUE"], ["StdoutAttributed"]),
               "violates:StdoutAttributed", 2))
     T.append(("Kernel code mechanism without printing error cells (mask)", "Kernel",
               kernel_cfg("code", 2, [t for t in TAGS_ALL if t != "perr"], False, ["TRUE"], ["StdoutAttributed"]), "holds", 2))
-    T.append(("Kernel fixed mechanism (proposed fix)", "Kernel", kernel_cfg("fixed", n, tags_n, q, both, KERNEL_INV + ["StdoutBeforeIdle"]), "holds", 4))
+    T.append(("Kernel fixed mechanism (proposed fix)", "Kernel", kernel_cfg("fixed", n, tags_n, False, both, KERNEL_INV + ["StdoutBeforeIdle"]), "holds", 4))
     T.append(("Kernel witnesses", "Kernel",
               kernel_cfg("spec", 2, ["ok", "perr", "forged-sig", "kernel_info_request"], True, both, []).replace(
                   "CHECK_DEADLOCK", "CONSTRAINT TrackW\nPOSTCONDITION WitnessesSeen\nCHECK_DEADLOCK"), "witnesses", 1))
@@ -1147,6 +1161,8 @@ def main(ctx):
     if ctx.replay:
         return replay(ctx)
     only = set(filter(None, os.environ.get("C19_ONLY", "").split(",")))     # development aid: mc,t1,t2 (ends with exit 2)
+    cap = int(os.environ.get("C19_NPROC", "0") or 0)                         # development aid on a shared machine: cap parallelism
+    np_ = cap or 16
     t0 = time.time()
     phase = ctx.cov.setdefault("phase_wall_s", {})
 
@@ -1156,34 +1172,56 @@ def main(ctx):
     # (M) in the background while the real code is being driven
     tasks = mc_tasks(ctx) if not only or "mc" in only else []
     mcres = {}
-    ths = run_mc(ctx, tasks, mcres, par=ctx.pick(5, 3))
+    if cap:
+        tasks = [(a, b, c, d, min(w, cap)) for a, b, c, d, w in tasks]
+    ths = run_mc(ctx, tasks, mcres, par=1 if cap else ctx.pick(5, 3))
     # (T1) framing
     frecs, srecs = [], []
+    deferred, box, vths = [], {"frej": [], "srej": []}, []
+
+    def background(key, fn, *a, **k):
+        def go():
+            try:
+                box[key] = fn(*a, defer=deferred, **k)
+            except BaseException as e:  # noqa: B902
+                box["err"] = e
+        t = threading.Thread(target=go)
+        t.start()
+        vths.append(t)
+        if cap:
+            t.join()
+
     if not only or "t1" in only:
         tiny_n = len(TINY) + (0 if ctx.quick else len(TINY_THOROUGH))
         ex = [["tiny", i] for i in range(tiny_n)] + [["head", i] for i in range(len(HEADS))]
-        nrand = ctx.pick(1280, 24000)
-        jobs = [{"seed": ctx.seed * 1000 + k, "exhaustive": ex[k::16], "random": nrand // 16, "head_limit": ctx.pick(10, 13)} for k in range(16)]
-        frecs = [x for r in run_workers("harness.drivers.c19", "work_frames", jobs, ctx.scratch) for x in r]
+        nrand = ctx.pick(800, 24000)
+        jobs = [{"seed": ctx.seed * 1000 + k, "exhaustive": ex[k::16], "random": nrand // 16, "head_limit": ctx.pick(9, 13)} for k in range(16)]
+        frecs = [x for r in run_workers("harness.drivers.c19", "work_frames", jobs, ctx.scratch, nproc=np_) for x in r]
         mark("T1 recorded")
+        background("frej", validate_frames, ctx, frecs, "main", nproc=min(np_, ctx.pick(6, 12)))      # TLC decides, meanwhile:
     # (T2) sessions
     if not only or "t2" in only:
         bits = [(f, b) for f, n in small_frame_bits().items() for b in range(n)]
         sjobs = [{"seed": ctx.seed * 1000 + 100 + k, "family": "bits", "bits": bits[k::8]} for k in range(8)]
-        nm, nu = ctx.pick(640, 16000), ctx.pick(240, 4000)
+        nm, nu = ctx.pick(400, 16000), ctx.pick(160, 4000)
         sjobs += [{"seed": ctx.seed * 1000 + 200 + k, "family": "rand", "mask": True, "count": nm // 8, "long": not ctx.quick} for k in range(8)]
         sjobs += [{"seed": ctx.seed * 1000 + 300 + k, "family": "rand", "mask": False, "count": nu // 4, "long": not ctx.quick} for k in range(4)]
         sjobs.append({"seed": 0, "family": "witness", "scns": [witness_scenario()]})
-        srecs = [x for r in run_workers("harness.drivers.c19", "work_sessions", sjobs, ctx.scratch) for x in r]
+        srecs = [x for r in run_workers("harness.drivers.c19", "work_sessions", sjobs, ctx.scratch, nproc=np_) for x in r]
         mark("T2 recorded")
-    # TLC decides
-    frej = validate_frames(ctx, frecs, "main", nproc=ctx.pick(8, 12)) if frecs else []
-    report_frames(ctx, frecs, frej)
-    mark("T1 validated")
     scases = [r["case"] for r in srecs]
-    srej = validate_sessions(ctx, scases, "main", nproc=ctx.pick(6, 12)) if scases else []
+    if scases:
+        background("srej", validate_sessions, ctx, scases, "main", nproc=min(np_, ctx.pick(6, 12)))
+    for t in vths:
+        t.join()
+    if "err" in box:
+        raise box["err"]
+    for res in deferred:
+        ctx.add_tlc(res, None)
+    frej, srej = box["frej"], box["srej"]
+    report_frames(ctx, frecs, frej)
     report_sessions(ctx, srecs, srej)
-    mark("T2 validated")
+    mark("T1 and T2 validated")
     ctx.cov["traces_validated_against_impl"] = len(frecs) + len(scases)
     # binding self-test on accepted recordings
     if not only:
